@@ -3,7 +3,7 @@
 (* The reference terminal: an xterm-like ANSI terminal as a value and a   *)
 (* transition function over lexer tokens (harness/enc.py):                *)
 (*   <<"t", cp>>  <<"m", params>>  <<"c", private, params, inter, final>> *)
-(*   <<"e", ch>>  <<"x", ...>>                                            *)
+(*   <<"e", ch>>  <<"i", ..>> (ignored malformed CSI)  <<"x", ...>>         *)
 (* Written from ECMA-48 / the xterm control-sequence documentation, for   *)
 (* the control functions blessed emits under TERM=xterm-256color.         *)
 (*                                                                         *)
@@ -108,6 +108,7 @@ Apply(t, tok) ==
           ELSE [t EXCEPT !.bad = t.bad + 1])
     [] tok[1] = "m" -> [t EXCEPT !.gr = ApplySgr(t.gr, tok[2])]
     [] tok[1] = "c" -> Csi(t, tok[2], tok[3], tok[4], tok[5])
+    [] tok[1] = "i" -> t        \* a malformed CSI sequence: swallowed, nothing happens
     [] tok[1] = "e" ->
          (IF tok[2] = "7" THEN [t EXCEPT !.saved = <<t.r, t.c, t.gr, t.pend>>]
           ELSE IF tok[2] = "8" THEN [t EXCEPT !.r = Clamp(t.saved[1], 0, t.h - 1), !.c = Clamp(t.saved[2], 0, t.w - 1),
